@@ -43,7 +43,7 @@ CLAUSE_OF = {
 ALL_CLAUSES = ["ClWith", "ClUpdate", "ClJoins", "ClSet", "ClFrom", "ClWhere", "ClLimit", "ClOffset", "ClDelete", "ClReplace",
                "ClInsert", "ClColumns", "ClValues", "ClSelect", "ClInto", "ClUsing", "ClForceIndex", "ClUseIndex",
                "ClPrewhere", "ClGroup", "ClRollup", "ClHaving", "ClOrderby", "ClPagination", "ClForUpdate"]
-IGNORED_SELF_CALLS = {"_set_kwargs_defaults"}
+IGNORED_SELF_CALLS = {"_set_kwargs_defaults", "_validate_with_references"}   # no rendering
 
 
 class ExtractError(RuntimeError):
@@ -178,6 +178,14 @@ def extract_clause_orders(src):
             else:
                 raise ExtractError("_SetOperation.get_sql renders %s" % tgt)
         elif isinstance(n, ast.Call) and _is_self_attr(n.func):
+            if n.func.attr == "_apply_pagination":
+                # delegates to a builder of the base class: LIMIT / OFFSET in the order of QueryBuilder._apply_pagination
+                for k_, cl in enumerate(pag):
+                    nm = {"ClLimit": "ScLimit", "ClOffset": "ScOffset"}.get(cl)
+                    if nm is None:
+                        raise ExtractError("_apply_pagination renders %s" % cl)
+                    marks.append((n.lineno, n.col_offset + k_, nm))
+                continue
             nm = {"_orderby_sql": "ScOrderby", "_limit_sql": "ScLimit", "_offset_sql": "ScOffset"}.get(n.func.attr)
             if nm is None:
                 raise ExtractError("_SetOperation.get_sql calls self.%s()" % n.func.attr)
